@@ -23,6 +23,8 @@ import vcheck as vc
 PROP = "C12"
 FID_YAML_BIG = "F-C12-yaml-bigint-string"
 FID_YAML_NUM = "F-C12-yaml-number-literal"
+FID_YAML_IND = "F-C12-yaml-indent-block-scalar"
+FID_YAML_TAB = "F-C12-yaml-tab-leading-block-scalar"
 
 # ---------------------------------------------------------------------------
 # values (the codec of spec/Encoder.tla)
@@ -494,7 +496,9 @@ class Checker:
     @staticmethod
     def finding_of(f):
         return {("yaml.roundtrip", "bigint-as-string"): FID_YAML_BIG,
-                ("yamlin.wellformed", "yaml-number-literal"): FID_YAML_NUM}.get((f["k"], f.get("dev")))
+                ("yamlin.wellformed", "yaml-number-literal"): FID_YAML_NUM,
+                ("yaml.read", "indent-block-scalar"): FID_YAML_IND,
+                ("yaml.read", "tab-leading-block-scalar"): FID_YAML_TAB}.get((f["k"], f.get("dev")))
 
     def report_finding(self, case, rec, v):
         """every failed check of the record carries a deviation tag: count it as that finding (never a violation
@@ -504,7 +508,11 @@ class Checker:
         if status != "open":            # repaired (the class has returned) or not listed at all: a violation like any other
             return False
         self.bump("finding:" + fid)
-        if fid == FID_YAML_BIG:
+        if fid == FID_YAML_TAB:
+            what = "--yaml-output writes a multi-line string that starts with a TAB as a block scalar that --yaml-input rejects: %r" % bytes(rec["yaml"].get("text", [])[:120]).decode("latin1")
+        elif fid == FID_YAML_IND:
+            what = "--yaml-output --indent %s writes a block scalar with an indentation indicator that --yaml-input rejects: %r" % (case.get("yind"), bytes(rec["yaml"].get("text", [])[:120]).decode("latin1"))
+        elif fid == FID_YAML_BIG:
             what = "--yaml-output writes the *big.Int %s as a quoted string; --yaml-input reads a string back" % show(case["vs"][0], 60)
         else:
             what = "--yaml-input hands YAML number literals through verbatim: stdout %r is not JSON" % bytes(rec["yin"]["out"][:80]).decode("latin1")
@@ -633,6 +641,12 @@ def run(tier, seed, replay):
         # 6. YAML: written with --yaml-output, read back with --yaml-input
         yv, ybig = yaml_values(r, quick)
         cases = [{"vs": vs, "yaml": True} for vs in yv + ybig]
+        # the same under --indent n (the YAML writer takes the indentation from the option): multi-line strings with leading / trailing blanks
+        blk = [S(x.encode()) for x in (" x\ny\n", " \n", "  a\nb", "\n a", " a\n b\n", "a\nb\n", "a\n\n", "\ta\nb", "a \nb", "- a\n- b\n", "x: 1\ny: 2\n", "#c\nd", " ")]
+        for n in (0, 1, 2, 3, 4, 7, 8, 9):
+            cases.append({"vs": [A(blk)], "yaml": True, "yind": n})
+            cases.append({"vs": [O([(b"k", A(blk[:6])), (b"m", O([(b"n", blk[0])]))])], "yaml": True, "yind": n})
+            cases.append({"vs": [r.choice(yv)[0] if False else A([blk[j] for j in r.sample(range(len(blk)), 4)])], "yaml": True, "yind": n})
         ydocs = yaml_input_docs(r, quick)
         cases += [{"vs": [], "yin": d} for d in ydocs]
         rep.cov["yaml_cases"] = len(cases)
